@@ -501,9 +501,11 @@ pub fn sweep_pairs(shard: u64, of: u64) {
                         let got = kinds(&toks);
                         let mut want: Vec<String> = vec![];
                         want.extend(k1.iter().map(|s| s.to_string()));
-                        want.extend(between.iter().map(|s| s.to_string()));
+                        // a comment is trivia: it neither opens nor closes a block
+                        let trivia2 = is_comment(s2);
+                        want.extend(between.iter().filter(|k| !(trivia2 && **k == "Indent")).map(|s| s.to_string()));
                         want.extend(k2.iter().map(|s| s.to_string()));
-                        want.extend(after.iter().map(|s| s.to_string()));
+                        want.extend(after.iter().filter(|k| !(trivia2 && **k == "Dedent")).map(|s| s.to_string()));
                         want.push("Eof".into());
                         kinds_checked += 1;
                         if got != want {
